@@ -48,6 +48,7 @@ import (
 
 	"golang.org/x/perf/benchfmt"
 	"golang.org/x/perf/benchproc"
+	"golang.org/x/perf/benchunit"
 )
 
 func init() { register("filtersem", famFilterSem) }
@@ -1614,6 +1615,18 @@ func fltRecord(args []string) error {
 		fileable := true // can the configuration be carried by a file? (keys without blank or colon)
 		for k := range evres.Cfg {
 			if strings.ContainsAny(k, " :") {
+				fileable = false
+			}
+		}
+		// ... and the measurements: what the reader of the binary makes of the written pair must be the
+		// pair of the model (a unit the reader would normalise, given without an original, is not)
+		for _, v := range res.Values {
+			wu, wv := v.Unit, v.Value
+			if v.OrigUnit != "" {
+				wu, wv = v.OrigUnit, v.OrigValue
+			}
+			_, tu := benchunit.Tidy(wv, wu)
+			if tu != v.Unit || (v.OrigUnit == "" && tu != wu) {
 				fileable = false
 			}
 		}
